@@ -21,14 +21,8 @@ from .common import VERIF
 
 CORPUS = os.path.join(VERIF, "corpus", "C16")
 
-K_COMPACT = "ckks_mul/square:non-compact-operand-assert"
-K_RADIX = "ckks_mul_pt_vec_znx:radix-mismatch-assert"
-K_CST = "ckks_add_pt_const:constant-limbs-exceed-destination-assert"
-K_RESCALE = "ckks_rescale_into:smaller-destination-inconsistent-meta"
-K_ZERO = "ckks_*_rnx:zero-precision-plaintext-underflow"
-K_ENC = "ckks_encrypt_sk:noise-k-outside-buffer-assert"
-K_MULCROSS = "ckks_mul:crossed-delta-budget-misscaled-product"
-
+# the only finding left after the repairs docs/fixes/01-07 (FFT64 only; the generator avoids it)
+K_UNINIT = "ckks_mul*:operand-with-effective_k=0"
 
 def div_ceil(x, b):
     return (x + b - 1) // b
@@ -106,19 +100,19 @@ class Sim:
         if pd > self.maxprec:
             raise Err("other")
         if pd + pb == 0:
-            raise Panic("overflow", K_ZERO)
+            raise Err("other")
 
     def rnx_to_znx(self, pd, pb):
         if pd > self.maxprec:
             raise Err("other")
         if pd + pb == 0:
-            raise Panic("overflow", K_ZERO)
+            raise Err("other")
 
     def to_znx_at_k(self, k, ld, re, im):
         if ld > self.maxprec:
             raise Err("other")
         if (re or im) and k == 0:
-            raise Panic("overflow", K_ZERO)
+            raise Err("other")
         return (ld, max(0, k - ld), div_ceil(k, self.q))
 
     def cst_assign(self, dst, cst, re, im):
@@ -127,8 +121,7 @@ class Sim:
         ld, lb, limbs = cst
         if dst.b + ld < ld + lb:
             raise Err(f"PlaintextAlignmentImpossible:{dst.b}:{ld}:{ld + lb}")
-        if limbs > dst.size:
-            raise Panic("assert", K_CST)
+        # only the leading dst.size digits are injected
 
     def cnv_hi(self, cnv):
         return 0 if cnv < self.q else cnv // self.q - 1
@@ -140,7 +133,7 @@ class Sim:
         rlb0, rld = mb - md, min(a.d, b.d)
         ro = max(0, rlb0 + rld - self.maxk(res))
         rlb = self.budget_sub(rlb0, ro)
-        return rlb, rld, max(a.eff(), b.eff()) + ro
+        return rlb, rld, max(a.b, b.b) + max(a.d, b.d) + ro
 
     def mul_pt_params(self, res, a, pd, pb, base):
         if pd > a.b:
@@ -150,30 +143,31 @@ class Sim:
         rlb = self.budget_sub(rlb0, ro)
         return rlb, rld, base + ro
 
-    def compact_chk(self, c):
-        if div_ceil(c.eff(), self.q) != c.size:
-            raise Panic("assert", K_COMPACT)
+    def eff_limbs(self, c):
+        """poulpy-core effective_limbs: leading limbs covering effective_k (assert limbs <= size)"""
+        n = div_ceil(c.eff(), self.q)
+        if n > c.size:
+            raise Panic("assert", "effective_limbs:metadata-exceed-storage")
+        if n == 0:
+            raise Panic("overflow", K_UNINIT)
+        return n
 
     def mul_into(self, dst, a, b):
         rlb, rld, cnv = self.mul_ct_params(dst, a, b)
-        self.compact_chk(a)
-        self.compact_chk(b)
-        self.usub(a.size + b.size, self.cnv_hi(cnv))
+        self.usub(self.eff_limbs(a) + self.eff_limbs(b), self.cnv_hi(cnv))
         dst.d, dst.b = rld, rlb
 
     def square_into(self, dst, a):
         rlb, rld, cnv = self.mul_ct_params(dst, a, a)
-        self.compact_chk(a)
-        self.usub(2 * a.size, self.cnv_hi(cnv))
+        self.usub(2 * self.eff_limbs(a), self.cnv_hi(cnv))
         dst.d, dst.b = rld, rlb
 
     def mul_pt_znx(self, dst, a, pd, pb, pq):
+        if pq != self.q:
+            raise Err(f"PlaintextBase2KMismatch:{self.q}:{pq}")
         psize = div_ceil(pd + pb, pq)
         rlb, rld, cnv = self.mul_pt_params(dst, a, pd, pb, psize * pq)
-        if pq != self.q:
-            raise Panic("assert", K_RADIX)
-        self.compact_chk(a)
-        self.usub(a.size + psize, self.cnv_hi(cnv))
+        self.usub(self.eff_limbs(a) + psize, self.cnv_hi(cnv))
         dst.d, dst.b = rld, rlb
 
     def mul_pt_rnx(self, dst, a, pd, pb):
@@ -226,10 +220,10 @@ class Sim:
                 c = slot(d)
                 self.pt_build(pd, pb)
                 if k == 0:
-                    raise Panic("overflow", K_ENC)
-                if div_ceil(k, self.q) > c.size:
-                    raise Panic("assert", K_ENC)
+                    raise Err("other")
                 lb = self.budget_sub(k, pd)
+                if k > self.maxk(c):
+                    raise Err(f"LimbReallocationShrinksBelowMetadata:{self.maxk(c)}:{pd}:{self.q}:{c.size}")
                 c.d, c.b = pd, lb
                 self.pt_align(c, pd, pb, pq)
             elif name in ("add", "sub"):
@@ -408,9 +402,9 @@ class Sim:
                 cd, ca = slot(d), slot(a)
                 distinct(d, a)
                 lb = self.budget_sub(ca.b, k)
+                off = max(0, ca.d + lb - self.maxk(cd))
+                lb = self.budget_sub(lb, off)
                 cd.d, cd.b = ca.d, lb
-                if cd.eff() > self.maxk(cd):
-                    key = K_RESCALE
             elif name == "rescale_assign":
                 d, k = iv
                 cd = slot(d)
@@ -465,7 +459,7 @@ class Sim:
 # --------------------------------------------------------------------------------------------------
 # generator
 # --------------------------------------------------------------------------------------------------
-BACKENDS = [("ntt120ref", 52), ("fft64ref", 17)]
+BACKENDS = [("ntt120ref", 52), ("fft64ref", 17), ("ntt120avx", 52), ("fft64avx", 17)]
 
 
 class Gen:
@@ -618,7 +612,7 @@ class Gen:
                 c = self.candidate(sim, boundary)
                 trial = Sim(self.q, self.keys, self.maxprec, [(x.size, x.d, x.b) for x in sim.pool])
                 out, key = trial.step([str(x) for x in c])
-                if any(x.size == 0 for x in trial.pool):
+                if any(x.size == 0 for x in trial.pool) or key == K_UNINIT:
                     continue      # zero-limb ciphertexts: degenerate, FFT64 asserts a_size > 0 where NTT120 accepts
                 if boundary or (out.startswith("ok") and key is None):
                     chosen = c
@@ -665,7 +659,7 @@ def oracle(line, impl_steps):
             for j, e in enumerate(cur):
                 d, b, s = (int(x) for x in e.split("."))
                 if d + b > s * q and (prev is None or j >= len(prev) or prev[j] != e):
-                    k = K_RESCALE if name == "rescale" else None
+                    k = None
                     return [(i, k, f"step {i} `{op}` returns ok with log_delta+log_budget={d + b} > max_k={s * q} on slot {j}")]
             prev = cur
         if got.split("@")[0] != want.split("@")[0]:
@@ -676,35 +670,6 @@ def oracle(line, impl_steps):
         if got != want:
             return [(i, None, f"step {i} `{op}`: implementation state {got}, documented {want}")]
     return []
-
-
-def first_crossed_mul(line, impl_steps):
-    """index of the first ct×ct multiplication whose operands have log_delta and log_budget ordered
-    oppositely (get_mul_ct_params then uses cnv_offset = max(effective_k) instead of
-    max(log_budget) + max(log_delta): the product is scaled down by the difference), or None"""
-    kv, keys, pool, ops = parse_header(line)
-    st = [(d, b) for (_, d, b) in pool]
-    for i, op in enumerate(ops):
-        f = op.split(",")
-        if i >= len(impl_steps):
-            break
-        pair = None
-        try:
-            if f[0] in ("mul", "mul_add_ct", "mul_sub_ct"):
-                pair = (st[int(f[2])], st[int(f[3])])
-            elif f[0] == "mul_assign":
-                pair = (st[int(f[1])], st[int(f[2])])
-        except (IndexError, ValueError):
-            pair = None
-        if pair and impl_steps[i].startswith("ok"):
-            (da, ba), (db, bb) = pair
-            if max(ba, bb) + max(da, db) != max(da + ba, db + bb):
-                return i
-        if "@" in impl_steps[i]:
-            st = [(int(e.split(".")[0]), int(e.split(".")[1])) for e in impl_steps[i].split("@")[1].split("/")]
-        else:
-            break
-    return None
 
 
 def run_both(ctx, binp, drv, lines):
@@ -848,24 +813,17 @@ def run(ctx):
                     unknown.append((line, s, what))
             # values (not judged from the first property violation on: e.g. rescale into a too small
             # destination returns Ok but has dropped the message bits)
-            crossed = first_crossed_mul(line, i)
             for s, dgs in enumerate(dg):
                 if first_finding is not None and s >= first_finding:
                     break
                 if s < len(i) and i[s].startswith("err"):
                     break      # the judged run ends at the first Err (as in `oracle`)
-                if crossed is not None and s >= crossed:
-                    # the product is mis-scaled from here on: confirm it is visible, report once
-                    if s == crossed and dgs and dgs != "-":
-                        l2e, ld, l2m, lb = dgs.split(":")
-                        if float(l2m) + 1.5 < int(lb) and float(l2e) + int(ld) > 9.0 + 1.5 * s + 2.0 * max(0.0, float(l2m)):
-                            ctx.oracle_failures += 1
-                            findings.setdefault(K_MULCROSS, (line, s, f"step {s} `{ops[s]}`: operands with log_delta and log_budget ordered oppositely: "
-                                                f"decrypted product differs from the complex-number product by 2^{l2e} (log_delta={ld})"))
-                    break
                 if dgs and dgs != "-":
                     try:
                         l2e, ld, l2m, lb = dgs.split(":")
+                        if int(ld) < 10:
+                            vstats["low_precision_skipped"] = vstats.get("low_precision_skipped", 0) + 1
+                            continue          # below ~10 bits the encryption noise (sigma 3.2, bound 19) is of the order of the message
                         if float(l2m) + 1.5 >= int(lb):
                             vstats["out_of_range_skipped"] = vstats.get("out_of_range_skipped", 0) + 1
                             continue          # the value does not fit the remaining log_budget: caller's overflow
@@ -892,8 +850,8 @@ def run(ctx):
         max_steps = 12 if quick else 16
         lines = []
         for p in range(n_prog):
-            be, q = BACKENDS[p % 2]
-            n = 16 if (p // 2) % 3 else 64
+            be, q = BACKENDS[p % 4]
+            n = 16 if (p // 4) % 3 else 64
             g = Gen(rng.fork(), be, q, n)
             ops = g.program(g.r.range(4, max_steps))
             line = g.header() + " vals=1" + (" mag=" + str(g.r.choice([1.0, 1.0, 0.5, 4.0, 30.0]))) + " ops=" + ";".join(ops)
